@@ -191,6 +191,13 @@ Definition cdec (id : N) (w : value) : option value :=
 
 Definition encode_t := encode_typed cenc.
 Definition decode_t := decode_typed cdec.
+(* Stream.Decode on a reader limited to the input: the first value only *)
+Definition decode_stream_t (s : schema) (b : bytes) : option (value * bytes) :=
+  if negb (bytes_ok b) then None else
+  match dec (S (length b)) b with
+  | Some (it, rest) => option_map (fun v => (v, rest)) (of_item cdec s it)
+  | None => None
+  end.
 
 Definition lenient_t := lenient cenc cdec.
 Definition good_t := good cenc cdec.
@@ -233,7 +240,11 @@ Inductive case :=
    [encode_t] is injective, so equal re-encodings mean equal values.) *)
 | CDec (ty : N) (b : bytes) (r : option bytes)
 (* rlp.DecodeBytes(b, &interface{}) and re-encoding *)
-| CItem (b : bytes) (r : option bytes).
+| CItem (b : bytes) (r : option bytes)
+(* rlp.NewStream(reader(b), len b).Decode(&T) - what p2p Msg.Decode and the
+   database readers do: one value is read, trailing bytes are left unread.
+   Some (b', n) = accepted, re-encodes to b', n bytes unread *)
+| CStream (ty : N) (b : bytes) (r : option (bytes * N)).
 
 Definition opt_bytes_eqb (a b : option bytes) : bool :=
   match a, b with
@@ -272,6 +283,20 @@ Definition case_ok (t : table) (c : case) : bool :=
     | None, None => true
     | Some i, Some b' => bytes_eqb (encode i) b'
     | _, _ => false
+    end
+  | CStream ty b r =>
+    match lookup t ty with
+    | None => false
+    | Some s =>
+      match decode_stream_t s b, r with
+      | None, None => true
+      | Some (v, rest), Some (b', n) =>
+        (len rest =? n) &&
+        if has_custom id_EvidenceDoubleSign s
+        then opt_value_eqb (decode_t s b') (Some v)
+        else opt_bytes_eqb (encode_t s v) (Some b')
+      | _, _ => false
+      end
     end
   end.
 
